@@ -154,16 +154,18 @@ class CreateCheck:
         # R, trees
         if quick:
             shapes3 = ["D2", "D2n", "D3", "D3s", "D3o", "D3u", "D3n", "D3t",
-                       "D3d", "D3p", "D3b", "D3num", "D3e"]
+                       "D3d", "D3p", "D3b", "D3num", "D3e", "D3q", "D2rr"]
             shapes4 = ["D4"]
             Ps = [16384, 32768]
         else:
             shapes3 = ["D2", "D2n", "D3", "D3s", "D3o", "D3u", "D3x", "D3n",
-                       "D3t", "D3d", "D3p", "D3b", "D3num", "D3e"]
+                       "D3t", "D3d", "D3p", "D3b", "D3num", "D3e", "D3q",
+                       "D2rr"]
             shapes4 = ["D4", "D4n", "D5"]
             Ps = [16384, 32768, 65536]
         if pid in ("C02", "C03", "C10") and quick:
-            shapes3 = ["D2n", "D3", "D3o", "D3u", "D3n", "D3t", "D3d", "D3p", "D3b", "D3num", "D3e"]
+            shapes3 = ["D2n", "D3", "D3o", "D3u", "D3n", "D3t", "D3d", "D3p",
+                       "D3b", "D3num", "D3e", "D3q", "D2rr"]
         for P in Ps:
             for sh in shapes3 + shapes4:
                 n = world.nfiles(sh)
@@ -242,15 +244,26 @@ class CreateCheck:
         # files with megabytes still missing (R: thresholds given in bytes;
         # S: the same with 512 blocks per piece, thresholds given in blocks)
         MiB = 1 << 20
-        for P in ([1 << 23] if quick else [1 << 22, 1 << 23, 1 << 24]):
-            alpha = [3 * MiB + 17, 6 * MiB + 5] if quick else \
-                [MiB + 1, 3 * MiB + 17, 6 * MiB + 5]
-            for sh in ("D3",) if quick else ("D2n", "D3"):
-                for g in e1.size_groups(sh, alpha):
-                    gs.append({"kind": "tree", "scale": "R", "B": REAL_B,
-                               "P": P, "shape": sh, "alpha": alpha,
-                               "first": g["first"], "seed": seed,
-                               "listing": "native"})
+        big_vecs = [[12 * MiB, 5 * MiB + 321, 7],
+                    [4 * MiB, 4 * MiB, 9 * MiB],
+                    [3 * MiB + 17, 6 * MiB + 5, MiB + 1],
+                    [6 * MiB + 5, 3 * MiB + 17, 11 * MiB + 7]]
+        if not quick:
+            big_vecs += [[MiB + 1, 16 * MiB, 2 * MiB], [8 * MiB, 1, 8 * MiB],
+                         [20 * MiB + 3, 5, 4 * MiB - 1]]
+        for P in ([1 << 22, 1 << 23] if quick else
+                  [1 << 21, 1 << 22, 1 << 23, 1 << 24]):
+            for v in big_vecs:
+                gs.append({"kind": "vec", "scale": "R", "B": REAL_B, "P": P,
+                           "shape": "D3", "sizes_list": [v], "seed": seed,
+                           "listing": "native"})
+            # single files longer than any plausible read buffer
+            for sz in ([10 * MiB + 1, 21 * MiB + 3] if quick else
+                       [4 * MiB + 1, 8 * MiB, 10 * MiB + 1, 16 * MiB + 5,
+                        21 * MiB + 3, 32 * MiB - 1]):
+                gs.append({"kind": "dense", "scale": "R", "B": REAL_B,
+                           "P": P, "shape": "S1", "sizes": [sz],
+                           "seed": seed, "listing": "native"})
         for sh in ("D2n", "D3"):
             alpha = [300, 513, 700, 1025] if quick else \
                 [255, 300, 513, 700, 1025, 1537]
@@ -302,6 +315,15 @@ class CreateCheck:
                 for progress in (0, 1, 2):
                     gs.append({"kind": "iofault", "label": label,
                                "progress": progress, "seed": seed})
+        # name relations between the root and what lies below it, through
+        # the library value forms and the CLI
+        for sh in ("D2rr", "D3n", "D3o"):
+            alpha = [5, 32769]
+            for g in e1.size_groups(sh, alpha):
+                gs.append({"kind": "tree", "scale": "R", "B": REAL_B,
+                           "P": 32768, "shape": sh, "alpha": alpha,
+                           "first": g["first"], "seed": seed, "cli": True,
+                           "listing": "native"})
         # auto piece length + CLI route (R)
         for sh in ("S1", "D2n", "D3"):
             alpha = e1.r_alphabet(16384, "quick", 3)
@@ -415,11 +437,17 @@ class CreateCheck:
                         forms["plexp"] = dict(path=path, piece_length=exp)
                     # and the same object asked twice: assemble() again before
                     # writing, write() again to a second path
+                    # the content path given relative to the working directory
+                    forms["relpath"] = dict(path=os.path.basename(path),
+                                            piece_length=P)
                     forms["reassemble"] = dict(path=path, piece_length=P)
                     forms["write-twice"] = dict(path=path, piece_length=P)
                     for form, fkw in forms.items():
                         of2 = of + "." + form
+                        oldcwd = os.getcwd()
                         try:
+                            if form == "relpath":
+                                os.chdir(os.path.dirname(path))
                             with tf.quiet():
                                 t = tf.CREATORS[creator](outfile=of2,
                                                          progress=0,
@@ -440,6 +468,8 @@ class CreateCheck:
                         except Exception as e:  # noqa
                             out[label].append(("api-form-raised:" + form + ":"
                                                + type(e).__name__, None))
+                        finally:
+                            os.chdir(oldcwd)
                         trans += 1
             if cli and pid in CLI_FLAGS:
                 of = os.path.join(parent, "cli.torrent")
